@@ -199,6 +199,20 @@ def writeAll (H : HashFn) (descriptors : Bool) : Registry → List Rec → List 
   | _, [] => []
   | reg, r :: rs => (writeRec H descriptors reg r).2 ++ writeAll H descriptors (writeRec H descriptors reg r).1 rs
 
+/-- A write that RAISES while the record is serialised (`json.dumps` meets a value it refuses after `pack_obj` ran):
+    the descriptor was registered and — when descriptors are enabled — its line written by the registration
+    callback; no record line follows. The caller may carry on with the same writer. -/
+def writeFailed (H : HashFn) (descriptors : Bool) (reg : Registry) (r : Rec) : Registry × List JVal :=
+  if regGet reg (ident H r.desc) = some r.desc then (reg, [])
+  else (regSet reg (ident H r.desc) r.desc, if descriptors then [descLine r.desc] else [])
+
+/-- a history of writes, each succeeding (`true`) or raising (`false`) -/
+def writeHist (H : HashFn) (descriptors : Bool) : Registry → List (Rec × Bool) → List JVal
+  | _, [] => []
+  | reg, (r, true) :: rs => (writeRec H descriptors reg r).2 ++ writeHist H descriptors (writeRec H descriptors reg r).1 rs
+  | reg, (r, false) :: rs =>
+    (writeFailed H descriptors reg r).2 ++ writeHist H descriptors (writeFailed H descriptors reg r).1 rs
+
 /-! ## Reading: `unpack_obj`, then the record constructor -/
 
 inductive Err where
